@@ -352,6 +352,9 @@ def p_C01(ctx):
 
 def p_C02(ctx):
     flow_trace(ctx, "pairing", 240, 4800, chunk=18, extra=["--focus", "vector"])
+    if not ctx.quick():
+        # the pairing specification itself, instantiated on a toy BN curve on native integers (no Java): bilinearity grid
+        flow_model(ctx, "MC_Toy82", workers=9, timeout=3600, xmx="6g", label="MC_Toy82")
 
 
 def p_C03(ctx):
@@ -363,7 +366,16 @@ def p_C03(ctx):
         flow_sympair(ctx, mode="both", k=2, kg=4)
 
 
+def levelb_machine(ctx):
+    inv = ["Denotes", "WellFormed", "ObsByLog"]
+    flow_levelb(ctx, "ImplMachine", {"P": 7, "B": 3, "Gx": 1, "Gy": 2}, inv, init="MInit", nxt="MNext")
+    if not ctx.quick():
+        flow_levelb(ctx, "ImplMachine", {"P": 13, "B": 2, "Gx": 1, "Gy": 4}, inv, init="MInit", nxt="MNext", workers=12)
+
+
 def p_C16(ctx):
+    # unbounded histories at small scale: the full reachable set of the transcribed Jacobian register machine on a tiny curve
+    levelb_machine(ctx)
     # exhaustive small scope: the whole state graph of the symbolic machine, walked with real histories (no explicit rescaling)
     if ctx.quick():
         flow_symwalk(ctx, mode="both", nreg=2, k=4, rescale=False)
@@ -381,7 +393,9 @@ def p_C07(ctx):
 
 
 def p_C17(ctx):
-    flow_trace(ctx, "tower", 700, 14000, chunk=50)
+    flow_trace(ctx, "tower", 800, 14000, chunk=50)
+    # both hard-part addition chains, as exponent arithmetic modulo Phi12(q) at the real parameters
+    flow_model(ctx, "ImplFinalExp", workers=1, timeout=600, xmx="2g", label="ImplFinalExp")
 
 
 def flow_dual(ctx, suite, nq, nt, chunk, extra=(), label=None):
@@ -607,9 +621,10 @@ def setup():
         return name, ok, dt, o
 
     jobs = [("MC_BigNat (Java overrides == pure TLA+ definitions)", "MC_BigNat", None, 1200),
-            ("MC_LevelA (standard's vector, orders, bilinearity, Frobenius, codec)", "MC_LevelA", None, 1200)]
+            ("MC_LevelA (standard's vector, orders, bilinearity, Frobenius, codec)", "MC_LevelA", None, 1200),
+            ("MC_Toy82 (generic pairing modules on a toy BN curve, native integers, no Java)", "MC_Toy82", None, 1800)]
     bad = []
-    with cf.ThreadPoolExecutor(max_workers=2) as ex:
+    with cf.ThreadPoolExecutor(max_workers=3) as ex:
         for name, ok, dt, o in ex.map(job, jobs):
             print(f"[setup] {name}: {'ok' if ok else 'FAILED'} in {dt:.0f}s")
             if not ok:
